@@ -100,13 +100,13 @@ theorem find_ok_aux (s s' : CurState) (h : step s .find = (s', .ok ())) :
         · rename_i i hi
           obtain ⟨d, hj, hdle, hocc, hmin⟩ := findGo_some pat _ _ _ _ hi
           left
-          simp [pushC] at h
+          have h := (pushC_ok h).1
           refine ⟨d, ?_, hdle, hocc, hmin⟩
-          rw [← h]; simp [hj]
+          rw [h]; simp [hj]
         · rename_i hi
           right
-          simp [pushC] at h
-          exact ⟨h.symm, findGo_none pat _ _ _ hi⟩
+          have h := (pushC_ok h).1
+          exact ⟨h, findGo_none pat _ _ _ hi⟩
   · simp at hr
 
 end Xeh.Cur
